@@ -264,32 +264,8 @@ theorem toInt32_defined_iff (p : Nat) :
     out-of-range values included), and returns the saturated truncation -/
 theorem number_eval_spec (p : Nat) :
     GenNum.numberEval p = .ok (B64.satSpec (B64.ext p)) := by
-  have hmax : B64.ext (B64.ofInt 2147483647) = .fin (2147483647 * B64.D) := B64.ext_ofInt _ (by decide)
-  have hmin : B64.ext (B64.ofInt (-2147483648)) = .fin (-2147483648 * B64.D) := B64.ext_ofInt _ (by decide)
-  unfold GenNum.numberEval B64.le B64.eq B64.toInt
-  rw [hmax, hmin]
-  cases h : B64.ext p with
-  | nan => simp [B64.Ext.le, B64.Ext.eq, B64.satSpec]
-  | ninf => simp [B64.Ext.le, B64.satSpec]
-  | pinf => simp [B64.Ext.le, B64.satSpec]
-  | fin u =>
-    simp only [B64.Ext.le, B64.Ext.eq, B64.Ext.trunc, B64.satSpec, decide_eq_true_eq, decide_true,
-      Bool.not_true, Bool.false_eq_true, if_false]
-    generalize hq : Int.tdiv u B64.D = q
-    by_cases h1 : 2147483647 * B64.D ≤ u
-    · have := B64.trunc_ge 2147483647 u h1
-      rw [hq] at this
-      simp only [h1, if_true]; unfold clamp32; congr 1; (repeat' split) <;> omega
-    · by_cases h2 : u ≤ -2147483648 * B64.D
-      · have := B64.trunc_le (-2147483648) u h2
-        rw [hq] at this
-        simp only [h1, h2, if_true, if_false]; unfold clamp32; congr 1; (repeat' split) <;> omega
-      · have l1 := B64.trunc_le 2147483647 u (by omega)
-        have l2 := B64.trunc_ge (-2147483648) u (by omega)
-        rw [hq] at l1 l2
-        have hin : InW .i32 q := by simp only [inW32_iff]; omega
-        simp only [h1, h2, if_false, hin, if_true, Except.bind]
-        unfold clamp32; congr 1; (repeat' split) <;> omega
+  unfold GenNum.numberEval
+  number_script p
 
 theorem satSpec_in32 (x : B64.Ext) : In32 (B64.satSpec x) := by
   cases x <;> simp only [B64.satSpec, inW32_iff] <;> try omega
